@@ -148,7 +148,11 @@ def run(tier: str, seed: int) -> int:
                 # validation of the writer model behind C16_dfu_file / C16_storage_file (IHexWrite.lean): the characters of the file are those the
                 # model of the third-party writer produces for the image.  Counted in the evidence; the property is judged on the image, so a
                 # different but equivalent file layout is not a violation
-                if size <= 70000:
+                big = size > 5000
+                if big and size <= 70000 and res.dist.get("writer-model:big-files", 0) < 80:
+                    res.count("writer-model:big-files")
+                    big = False
+                if not big:
                     for which, text_, img_ in (("dfu", impl["ok"][1], rd["ok"]), ("storage", impl["ok"][0], rs["ok"])):
                         if len(img_) == 1:
                             wt = drv.call({"op": "ihex.write", "address": img_[0][0], "data": img_[0][1]})
